@@ -611,3 +611,44 @@ CHECKS['C15']['partial'] = CHECKS['C15']['partial'] + [
     "registry: partitions are always started (the IsReady branch of routing is not reachable in protocol nsreg); the shared rocksdb WAL of the meta (walEng, UseRocksWAL) is off; Close() instead of Destroy() and concurrent init / stop / route are not driven"]
 CHECKS['C15']['assumptions'] = CHECKS['C15']['assumptions'] + ["registry theorems: partition indexes are ints in [0, 2^63) (strconv.Itoa / Atoi round trip)"]
 CHECKS['C15']['technique'] = CHECKS['C15']['technique'] + " + executable registry model vs a real NamespaceMgr with real raft groups"
+# ---- HINCRBY in both executable hash models (Data/HashIncr.lean + HashExec.lean: local-deletion layout; Data/HashTTLExec.lean:
+#      value-header layout), stated over the regenerated decisions of rockredis HIncrBy (Gen/HIncr.lean)
+_HINCR_RULE = ("HINCRBY (protocols datacore / datacorettl): field values and increments at the int64 boundaries, the forms strconv.ParseInt(.,10,64) accepts (+5, -0, 007) and refuses "
+               "(' 5', '5 ', 0x10, 1_0, 1.5, empty, sign only, non-ASCII digit), out of range by one, 38-digit strings; sequences HSET f v / HINCRBY f d / HDEL f / HINCRBY f d' as one apply event and as four; "
+               "apply events of 2-5 hash writes (about one write in ten); under the value-header layout HINCRBY one nanosecond before / at / after the expiry second, after HPERSIST, after HEXPIRE 0, "
+               "and as the re-creating write of the equal-timestamp bursts; fixed scenario files corpus/C08|C09|C10|C11/datacore*-hincrby.txt are replayed first")
+for _p in ('C08', 'C09', 'C10', 'C11'):
+    CHECKS[_p]['gens'] = CHECKS[_p]['gens'] + ['HIncr'] + (['HIncrShape'] if _p in ('C08', 'C11') else [])
+    CHECKS[_p]['rule'] = CHECKS[_p]['rule'] + " || " + _HINCR_RULE
+    CHECKS[_p]['trusted'] = [x.replace('only the hash family under the local-deletion layout (no versions, no TTL) is in the executable model; one entry per apply event; well-formed commands',
+                                       'only the hash family (incl. HINCRBY) under the local-deletion layout (no versions, no TTL) is in the executable model of protocol datacore; apply events of 1-5 hash writes; well-formed commands')
+                             for x in CHECKS[_p]['trusted']]
+CHECKS['C08']['partial'] = [x.replace('LTrimFront/LTrimBack, hincrby; table key counter', 'LTrimFront/LTrimBack; table key counter')
+                             .replace('hash: HGET/HSET/HDEL have refinement theorems;', 'hash: HGET/HSET/HDEL/HINCRBY have refinement theorems;')
+                            for x in CHECKS['C08']['partial']] + [
+    "HINCRBY: C08_abs_hincrby carries the size invariant (needed: witness C08_hincrby_needs_invariant; reachable stores satisfy it, C09) and the no-wrap hypothesis: int64 addition wraps silently "
+    "(deviation from redis, witness C08_dev_hincrby_wraps, same as INCRBY); integer texts are Go's strconv.ParseInt(.,10,64) (+5, -0, 007 accepted: C08_hincrby_integer_syntax), not redis's string2ll; "
+    "HINCRBYFLOAT is not a command of this tree (answers 'invalid command'): nothing to model"]
+CHECKS['C08']['level_text'] = CHECKS['C08']['level_text'] + (" HINCRBY (both hash models mirror rockredis HIncrBy over the REGENERATED guard/parse/order facts Gen/HIncr): under the size invariant and when the exact sum fits int64 "
+    "the reply and the abstraction are the specification's field := old + delta (missing = 0), reply = new value, every other field and key untouched, a non-integer value answers the error and changes nothing "
+    "(C08_abs_hincrby, C08_hincrby_frame, C08_hincrby_cmd for the raw increment argument).")
+CHECKS['C09']['partial'] = [x.replace('hash: invariant preservation is a theorem for HSET; HDEL / HMSET / HCLEAR', 'hash: invariant preservation is a theorem for HSET and HINCRBY (and every state reachable by them: C09_inv_reachable_hset_hincrby); HDEL / HMSET / HCLEAR')
+                            for x in CHECKS['C09']['partial']]
+CHECKS['C09']['level_text'] = CHECKS['C09']['level_text'].replace('Hash: size-meta invariant preserved by HSET.', 'Hash: size-meta invariant preserved by HSET and by HINCRBY (new field, existing field, error; also on the raw increment argument).')
+CHECKS['C09']['level_note'] = CHECKS['C09']['level_note'].replace('hash beyond HSET', 'hash beyond HSET / HINCRBY')
+CHECKS['C10']['level_text'] = CHECKS['C10']['level_text'] + (" HINCRBY under the value header (Props/C10Hash.lean over Data/HashTTLExec.hincrby, stated over the regenerated `hGetRawFieldValue(checkExpired)` guard): on a hash that is dead at the log time "
+    "the increment starts from 0 whatever the dead generation stores, in a NEW generation that shows exactly the one field and has no TTL (C10_hincrby_no_resurrection, C10_hincrby_dead_after_expiry: same answer as on the store without the key); "
+    "on a live hash it works on the live generation and keeps generation and expiry second, or answers an error and changes nothing (C10_hincrby_live_keeps); the fresh-version proviso is needed here too (C10_equal_ts_witness_hincrby).")
+CHECKS['C10']['partial'] = CHECKS['C10']['partial'] + [
+    "HINCRBY at the log timestamp of a dead generation whose field keys are still stored (known finding C10-generation-equals-timestamp): HINCRBY on a stale field answers its result but writes no size meta - the acknowledged increment is invisible "
+    "(HLEN 0, HGET nil); on another field it brings the stale fields back (witness C10_equal_ts_witness_hincrby, replayed on the real code by corpus/C10/datacorettl-hincrby.txt)"]
+CHECKS['C11']['protos'] = CHECKS['C11']['protos'] + [
+    dict(name='datacore', spec=True, quick_seeds=1, thorough_seeds=1, classes='(panic|error-changed-state)'),
+    dict(name='datacorettl', spec=True, quick_seeds=1, thorough_seeds=1, classes='(panic|error-changed-state)')]
+CHECKS['C11']['level_text'] = CHECKS['C11']['level_text'] + (" HASH: HINCRBY - the one hash write with a data-dependent error (stored value not an integer / beyond int64, ill-formed increment) - leaves the store as it was whenever it answers an error, "
+    "under both storage layouts, for every store, key, field, increment text and log time (C11_hincrby_error_no_effect, C11_hincrby_error_no_effect_ttl; the parse-before-write order is regenerated from HIncrBy); "
+    "protocols datacore / datacorettl tie these two models line by line and compare the engine bytes around every erroring event.")
+CHECKS['C11']['partial'] = [x.replace('error => nothing changed is a theorem for the KV / set / list / zset models (Props/C11Models.lean); hash commands of the model have no error outcome;',
+                                      'error => nothing changed is a theorem for the KV / set / list / zset models and for HINCRBY of both hash models (Props/C11Models.lean); the other hash commands of the local-deletion model have no error outcome, '
+                                      'those of the value-header model (value too large, undecodable size meta, expiry overflow) have no C11 theorem yet;')
+                            for x in CHECKS['C11']['partial']]
